@@ -288,7 +288,7 @@ func (c *Controller) WaitSettled(name string, max time.Duration) string {
 			}
 		}
 		if time.Now().After(deadline) {
-			return "blocked"
+			return "timeout" // neither parked, nor finished, nor seen blocked: the schedule could not be established
 		}
 		time.Sleep(300 * time.Microsecond)
 	}
